@@ -26,13 +26,14 @@ def enc_item(x, idx):
 
 
 class TapeRandom:
-    def __init__(self, rng=None, tape=None, idx=None, unif_bits=12, delay_den=16, delay_max=48, max_calls=200000):
+    def __init__(self, rng=None, tape=None, idx=None, unif_bits=12, delay_den=16, delay_max=48, max_calls=200000, free_choice=False):
         self.rng, self.tape, self.idx = rng, (list(tape) if tape is not None else None), idx
         self.pos = 0
         self.log = []          # wire-format tape  [["u","3/8"],["e","1/2"],["c",2],["s",[..]],["b",k]]
         self.trace = []        # calls with arguments [["u"],["e",rate],["c",seq],["s",n,k],["b",n,p]]
         self.unif_bits, self.delay_den, self.delay_max = unif_bits, delay_den, delay_max
         self.max_calls = max_calls
+        self.free_choice = free_choice   # replay mode: `choice` is served by `rng`, not by the tape
         self.forced_unif = None   # optional callable(thr-less) to bias draws
 
     def _next(self, kind):
@@ -77,7 +78,7 @@ class TapeRandom:
         n = len(seq)
         if n == 0:
             raise IndexError("Cannot choose from an empty sequence")
-        v = self._next("c")
+        v = None if (self.free_choice and self.tape is not None) else self._next("c")
         if v is None:
             v = self.rng.randrange(n)
         self.log.append(["c", v])
